@@ -529,8 +529,15 @@ Qed.
 
 (* the state-dependent validator (name-based Range) *)
 Lemma validate_s_static E c s d v :
-  (forall lo hi m, d <> DRangeDyn lo hi m) -> validate_s E c s d v = validate E d v.
-Proof. intros H. destruct d; try reflexivity. exfalso. now apply (H lo hi mask). Qed.
+  (forall lo hi m, d <> DRangeDyn lo hi m) -> (forall src, d <> DEnumDyn src) -> validate_s E c s d v = validate E d v.
+Proof. intros H H'. destruct d; try reflexivity; exfalso; [now apply (H lo hi mask) | now apply (H' src)]. Qed.
+
+Lemma dyn_enum_accepts coll v w :
+  dyn_enum coll v = Accept w -> w = v /\ exists items, coll = Some (PList items) /\ py_in v items = true.
+Proof.
+  unfold dyn_enum. destruct coll as [[]|]; try discriminate. destruct (py_in v l) eqn:H; [|discriminate].
+  intros Hx; inversion Hx; subst. split; [reflexivity|]. eauto.
+Qed.
 
 Lemma dyn_range_accepts low high mask v w :
   dyn_range low high mask v = Accept w ->
@@ -559,7 +566,8 @@ Lemma vs_sound E c s d v w :
   sound_hyp E d = true -> validate_s E c s d v = Accept w -> dom E d w = true.
 Proof.
   intros Hs. destruct d; try exact (validate_sound_lemma E _ v w Hs).
-  cbn [validate_s]. intros H. destruct (dyn_range_accepts _ _ _ _ _ H) as (l & h & z & _ & _ & -> & _). reflexivity.
+  - cbn [validate_s]. intros H. destruct (dyn_range_accepts _ _ _ _ _ H) as (l & h & z & _ & _ & -> & _). reflexivity.
+  - reflexivity.
 Qed.
 
 (* F18 as a witness: without none_sound the statement is false *)
@@ -1092,10 +1100,11 @@ Lemma vs_own E c s d v e :
   wf_desc d = true -> validate_s E c s d v = Propagate e -> raises_own v e = true.
 Proof.
   intros Hwf. destruct d; try exact (own_protocol_lemma E _ v e Hwf).
-  cbn [validate_s]. unfold dyn_range.
-  destruct v; try discriminate;
-    repeat (match goal with |- context [match ?x with _ => _ end] => destruct x
-                          | |- context [if ?b then _ else _] => destruct b end; try discriminate).
+  - cbn [validate_s]. unfold dyn_range.
+    destruct v; try discriminate;
+      repeat (match goal with |- context [match ?x with _ => _ end] => destruct x
+                            | |- context [if ?b then _ else _] => destruct b end; try discriminate).
+  - cbn [validate_s]. unfold dyn_enum. destruct (read c s src) as [[]|]; try discriminate. destruct (py_in v l); discriminate.
 Qed.
 
 Lemma setattr_exception_class E c s n v s' e d dflt :
@@ -1329,6 +1338,7 @@ Proof.
   - (* DList *) exfalso. now apply (proj1 (proj2 (proj2 (Hnp d))) minlen maxlen).
   - (* DRangeDyn: no instance here *) discriminate.
   - (* DDict *) exfalso. eapply (proj2 (proj2 (proj2 (Hnp _)))). reflexivity.
+  - (* DEnumDyn: no instance here *) discriminate.
 Qed.
 
 (* the same on the Python path *)
@@ -1532,8 +1542,9 @@ Lemma vs_conv E c s d v w :
   wf_desc d = true -> bool_final E = true -> validate_s E c s d v = Accept w -> conv_ok E d v w = true.
 Proof.
   intros Hwf HB. destruct d; try exact (documented_conversion_lemma E _ v w Hwf HB).
-  cbn [validate_s conv_ok]. intros H. destruct (dyn_range_accepts _ _ _ _ _ H) as (l & h & z & _ & _ & -> & Hc & _).
-  rewrite Hc. apply pv_eqb_refl.
+  - cbn [validate_s conv_ok]. intros H. destruct (dyn_range_accepts _ _ _ _ _ H) as (l & h & z & _ & _ & -> & Hc & _).
+    rewrite Hc. apply pv_eqb_refl.
+  - cbn [validate_s conv_ok]. intros H. destruct (dyn_enum_accepts _ _ _ H) as [-> _]. apply pv_eqb_refl.
 Qed.
 
 (* the name-based Range: an accepted value is an int within the bounds the two bound attributes hold NOW, exclusivity
@@ -1594,4 +1605,25 @@ Proof.
     destruct (all_pairs (c_validate E kd) (c_validate E vd) l) as [l'| |e] eqn:Hm; try discriminate.
     intros Hx; inversion Hx; subst. exists l, l'. repeat split. now apply all_pairs_forall2.
   - intros (kvs & l & -> & -> & HF). apply all_pairs_forall2 in HF. now rewrite HF.
+Qed.
+
+(* Enum(values='<name>'): an accepted value is stored unchanged and is a member of the collection the named attribute holds
+   at that moment; READING yields a member of the collection as it is then (None when it is empty) *)
+Lemma dyn_enum_member_lemma E c s src v w :
+  validate_s E c s (DEnumDyn src) v = Accept w ->
+  w = v /\ exists items, read c s src = Some (PList items) /\ py_in v items = true.
+Proof. cbn [validate_s]. apply dyn_enum_accepts. Qed.
+
+Lemma dyn_enum_readable_member_lemma c s n src x :
+  dyn_enum_readable c s n src = Some x ->
+  exists items, read c s src = Some (PList items) /\
+                match items with
+                | [] => x = PNone
+                | y :: _ => py_eq y y = true -> py_in x items = true      (* every value but NaN equals itself *)
+                end.
+Proof.
+  unfold dyn_enum_readable. destruct (read c s src) as [[]|]; try discriminate.
+  destruct (read c s n) as [v0|]; [|discriminate]. intros H; inversion H; subst. exists l. split; [reflexivity|].
+  destruct l as [|y l]; [reflexivity|]. intros Hy. destruct (py_in v0 (y :: l)) eqn:Hin; [exact Hin|].
+  unfold py_in. cbn [existsb]. now rewrite Hy.
 Qed.
